@@ -380,9 +380,51 @@ def scalar_short(tpl, refs, vals):
     return eval_formula(tpl % tuple(parts), inputs)
 
 
+# ---- space 4: lifting over the result of another function (non-contiguous intermediate arrays) ------------
+COMPOSE_FN = ['ISNUMBER', 'ISTEXT', 'ISLOGICAL', 'ISERROR', 'ISBLANK', 'ISNA', 'ISNONTEXT', 'ABS', 'NOT', 'LEN', 'UPPER', 'INT', 'SIGN', '-', 'N']
+COMPOSE_VALS = {
+    '2x3': [[N(1), T('a'), B(True)], [('e', '#N/A'), N(-2.5), T('')]],
+    '3x2': [[N(1), T('a')], [B(True), ('e', '#DIV/0!')], [N(-2.5), T('zz')]],
+    '2x2': [[N(1), T('a')], [B(False), N(4)]],
+    '1x3': [[N(3), T('b'), B(True)]],
+}
+
+
+def compose_cases(tier):
+    for fn in COMPOSE_FN:
+        for shp in COMPOSE_VALS:
+            for inner in ('TRANSPOSE(%s)', 'TRANSPOSE(TRANSPOSE(%s))', 'IF(TRUE,TRANSPOSE(%s))', 'TRANSPOSE(%s)&""'):
+                for mode in ('lit', 'rng'):
+                    yield ['compose', fn, shp, inner, mode]
+
+
+def run_compose(case):
+    from xl.evalcell import eval_formula
+    _, fn, shp, inner, mode = case
+    v = COMPOSE_VALS[shp]
+    inputs = {}
+    arg = spell(v, 0, mode, inputs)
+    call = (fn + '(%s)') if fn != '-' else '-(%s)'
+    txt = '=' + call % (inner % arg)
+    # the intermediate value, element by element, through the same inner expression on scalars
+    def scalar(e):
+        i2 = {}
+        a = spell(e, 0, mode, i2)
+        return eval_formula('=' + call % (inner % a), i2)
+    t = [list(r) for r in zip(*v)] if inner.count('TRANSPOSE') % 2 else v
+    exp = [[scalar(e) for e in row] for row in t]
+    got = eval_formula(txt, inputs, ref=dest((len(t), len(t[0]))), scalar=False)
+    if has_bad(exp):
+        return result(1 + size_of(exp), ['compose:%s:scalar-escape' % fn])
+    fails = []
+    if not same(got, exp):
+        fails.append(Fail('compose-escape' if isinstance(got, tuple) else 'compose-wrong', got=got, exp=exp, fn=fn, shape=shp, inner=inner, mode=mode, formula=txt))
+    return result(1 + size_of(exp), outcome('compose', fn, got), fails)
+
+
 # ---- driver ---------------------------------------------------------------------
 def run_case(case):
-    return {'lift': run_lift, 'fit': run_fit, 'count': run_count}[case[0]](case)
+    return {'lift': run_lift, 'fit': run_fit, 'count': run_count, 'compose': run_compose}[case[0]](case)
 
 
 def run(ctx):
@@ -395,6 +437,7 @@ def run(ctx):
     ctx.explore(run_case, lift_cases(ctx.tier), chunksize=128, label='lift')
     ctx.explore(run_case, fit_cases(ctx.tier), chunksize=128, label='fit')
     ctx.explore(run_case, count_cases(ctx.tier), chunksize=64, label='count')
+    ctx.explore(run_case, compose_cases(ctx.tier), chunksize=16, label='compose')
     return {'max_dim': 3 if ctx.tier == 'quick' else 4, 'operators': len(BIN) + len(UNA),
             'functions': len(FUNCS) + (len(FUNCS4) if ctx.tier == 'thorough' else 0),
             'oracle_audit': {k: v for k, v in audit.items() if k != 'disagreements'}}
